@@ -167,8 +167,23 @@ inline void crash_signal(int sig) {
     signal(sig, SIG_DFL);
     raise(sig);
 }
+inline int& case_timeout_s() {
+    static int t = 600;
+    return t;
+}
+inline void watchdog_signal(int) {
+    // a single case ran longer than the per-case limit: candidate hang (the driver re-runs it 3x before believing it)
+    CrashState& s = crash_state();
+    size_t p = s.text.find("process died while executing this case");
+    if (p != std::string::npos) s.text.replace(p, 38, "case exceeded the per-case time limit (hang?)");
+    dump_crash_case();
+    const char m[] = "WATCHDOG: case exceeded the per-case time limit\n";
+    if (write(2, m, sizeof m - 1)) {}
+    _exit(78);
+}
 inline void install_crash_dump(const std::string& path) {
     crash_state().path = path;
+    signal(SIGALRM, watchdog_signal);
     if (__sanitizer_set_death_callback) __sanitizer_set_death_callback(dump_crash_case);
     signal(SIGABRT, crash_signal);
     signal(SIGSEGV, crash_signal);
@@ -214,7 +229,9 @@ Sub make_sub(const std::string& name, std::function<rc::Gen<Case>()> gen,
                 ctx.cur_nontrivial = false;
                 ctx.cur_sample.clear();
                 if (!ctx.frozen) ctx.evaluations++;
+                alarm((unsigned)case_timeout_s());
                 std::string msg = run(c, ctx);
+                alarm(0);
                 crash_state().text.clear();
                 if (!ctx.frozen) {
                     if (ctx.cur_nontrivial) ctx.nontrivial.insert(fnv1a(text));
@@ -245,7 +262,10 @@ Sub make_sub(const std::string& name, std::function<rc::Gen<Case>()> gen,
     };
     s.replay = [run](Reader& r, Ctx& ctx) {
         Case c = Case::read(r);
-        return run(c, ctx);
+        alarm((unsigned)case_timeout_s());
+        std::string m = run(c, ctx);
+        alarm(0);
+        return m;
     };
     return s;
 }
@@ -304,6 +324,7 @@ inline int engine_main(int argc, char** argv, const std::string& name, const std
         else if (a == "--budget-s") budget = atof(next().c_str());
         else if (a == "--sub") only.insert(next());
         else if (a == "--replay") replay = next();
+        else if (a == "--case-timeout-s") case_timeout_s() = atoi(next().c_str());
         else {
             fprintf(stderr, "unknown argument %s\n", a.c_str());
             return 4;
